@@ -95,8 +95,6 @@ def make_logging_class(recorder):
     outer('transform', transform)
 
     def set_color(self, before, result, color, stroke=False):
-        if any(c is None for c in color.coordinates):
-            raise Unsupported('colour with a `none` coordinate')
         recorder.on(self, 'color', color, bool(stroke))
     outer('set_color', set_color)
 
